@@ -200,22 +200,22 @@ Qed.
 Lemma sim_inj x : sim (match x with None => None | Some (Ok (v, r)) => Some (Ok (inj v, r)) | Some Eof => Some Eof | Some Reject => Some Reject end) x.
 Proof. destruct x as [[[v r]| |]|]; cbn [sim]; auto. split; [reflexivity|apply rep_inj]. Qed.
 
-Theorem dinto_sim : forall fuel san s t bare ps old b,
-  sim (dinto fuel san s t bare ps old b) (dec1 fuel san s t bare ps b).
+Theorem dinto_sim : forall fuel rfuel san s t bare ps old b,
+  sim (dinto fuel rfuel san s t bare ps old b) (dec1 fuel san s t bare ps b).
 Proof.
-  induction fuel as [|fuel IH]; intros san s t bare ps old b; [exact I|].
+  induction fuel as [|fuel IH]; intros rfuel san s t bare ps old b; [exact I|].
   cbn [dinto]. destruct (nth_error s t) as [d|] eqn:Et; [|cbn [dec1]; rewrite Et; exact I].
   destruct d as [p|tag fds|vars|k ef|kp ef]; [cbn [dec1]; rewrite Et ..|apply sim_inj].
   - (* primitive *)
     destruct (dec_prim p b) as [[v r]| |]; cbn [sim]; auto. split; [reflexivity|apply rep_inj].
   - (* struct *)
     assert (G : forall b', sim
-      match dinto_fields (dinto fuel san s) (oreset fuel s) ps fds (match old with OStruct fs => fs | _ => [] end) [] b' with
+      match dinto_fields (dinto fuel rfuel san s) (oreset rfuel s) ps fds (match old with OStruct fs => fs | _ => [] end) [] b' with
       | None => None | Some (Ok (fs, r)) => Some (Ok (OStruct fs, r)) | Some Eof => Some Eof | Some Reject => Some Reject end
       match dec_fields (dec1 fuel san s) ps fds [] b' with
       | None => None | Some (Ok (fs, r)) => Some (Ok (VStruct fs, r)) | Some Eof => Some Eof | Some Reject => Some Reject end).
     { intros b'.
-      assert (F := fields_sim (dinto fuel san s) (dec1 fuel san s) (oreset fuel s) ps (IH san s) (oreset_onat fuel s)
+      assert (F := fields_sim (dinto fuel rfuel san s) (dec1 fuel san s) (oreset rfuel s) ps (IH rfuel san s) (oreset_onat rfuel s)
                      fds (match old with OStruct fs => fs | _ => [] end) [] [] b' I).
       destruct (dinto_fields _ _ _ _ _ _ _) as [[[fs r]| |]|]; destruct (dec_fields _ _ _ _ _) as [[[vs r']| |]|]; cbn [simf] in F; try contradiction; cbn [sim]; auto.
       destruct F as [<- Hf]. split; [reflexivity|]. cbn [rep]. eauto. }
@@ -224,7 +224,7 @@ Proof.
     destruct bare; [exact I|]. destruct (nat_r b) as [[tg b']| |]; cbn [sim]; auto.
     destruct (find_variant s vars tg 0) as [[idx fds]|]; [|exact I].
     set (vs := match old with OUnion _ vs => vs | _ => [] end).
-    assert (F := fields_sim (dinto fuel san s) (dec1 fuel san s) (oreset fuel s) ps (IH san s) (oreset_onat fuel s)
+    assert (F := fields_sim (dinto fuel rfuel san s) (dec1 fuel san s) (oreset rfuel s) ps (IH rfuel san s) (oreset_onat rfuel s)
                    fds (match nth idx vs OFresh with OStruct fs => fs | _ => [] end) [] [] b' I).
     destruct (dinto_fields _ _ _ _ _ _ _) as [[[fs r]| |]|]; destruct (dec_fields _ _ _ _ _) as [[[vls r']| |]|]; cbn [simf] in F; try contradiction; cbn [sim]; auto.
     destruct F as [<- Hf]. split; [reflexivity|]. cbn [rep]. eexists _, _. split; [reflexivity|]. split; [apply set_nth_get|exact Hf].
@@ -233,13 +233,13 @@ Proof.
     set (eargs := eval_args ps [] (f_args ef)).
     set (olds0 := match old with OArr live stale => live ++ stale | _ => [] end).
     assert (G : forall n olds b', sim
-      match dinto_elems (dinto fuel san s (f_ty ef) (f_bare ef) eargs) n olds b' with
+      match dinto_elems (dinto fuel rfuel san s (f_ty ef) (f_bare ef) eargs) n olds b' with
       | None => None | Some (Ok (es, rest, r)) => Some (Ok (OArr es rest, r)) | Some Eof => Some Eof | Some Reject => Some Reject end
       match dec_elems (dec1 fuel san s (f_ty ef) (f_bare ef) eargs) n b' with
       | None => None | Some (Ok (es, r)) => Some (Ok (VArr es, r)) | Some Eof => Some Eof | Some Reject => Some Reject end).
     { intros n olds b'.
-      assert (E := elems_sim (dinto fuel san s (f_ty ef) (f_bare ef) eargs) (dec1 fuel san s (f_ty ef) (f_bare ef) eargs)
-                     (fun o' b'' => IH san s (f_ty ef) (f_bare ef) eargs o' b'') n olds b').
+      assert (E := elems_sim (dinto fuel rfuel san s (f_ty ef) (f_bare ef) eargs) (dec1 fuel san s (f_ty ef) (f_bare ef) eargs)
+                     (fun o' b'' => IH rfuel san s (f_ty ef) (f_bare ef) eargs o' b'') n olds b').
       destruct (dinto_elems _ _ _ _) as [[[[es rest] r]| |]|]; destruct (dec_elems _ _ _) as [[[vs r']| |]|]; cbn [sime] in E; try contradiction; cbn [sim]; auto.
       destruct E as [<- He]. split; [reflexivity|]. cbn [rep]. eauto. }
     destruct k as [| |c].
@@ -344,17 +344,17 @@ Qed.
 Definition verdict_of (x : ires) : option (res bytes) :=
   match x with None => None | Some (Ok (_, r)) => Some (Ok r) | Some Eof => Some Eof | Some Reject => Some Reject end.
 
-Corollary reuse_equals_fresh fuel san s t bare ps old1 old2 b :
-  verdict_of (dinto fuel san s t bare ps old1 b) = verdict_of (dinto fuel san s t bare ps old2 b) /\
-  forall o1 o2 r1 r2, dinto fuel san s t bare ps old1 b = Some (Ok (o1, r1)) ->
-                      dinto fuel san s t bare ps old2 b = Some (Ok (o2, r2)) ->
+Corollary reuse_equals_fresh fuel rfuel san s t bare ps old1 old2 b :
+  verdict_of (dinto fuel rfuel san s t bare ps old1 b) = verdict_of (dinto fuel rfuel san s t bare ps old2 b) /\
+  forall o1 o2 r1 r2, dinto fuel rfuel san s t bare ps old1 b = Some (Ok (o1, r1)) ->
+                      dinto fuel rfuel san s t bare ps old2 b = Some (Ok (o2, r2)) ->
     exists v, dec1 fuel san s t bare ps b = Some (Ok (v, r1)) /\ rep o1 v /\ rep o2 v /\
       forall t' bare' ps' w, enc1 false s t' bare' ps' v = Some w ->
         oenc s t' bare' ps' o1 = Some w /\ oenc s t' bare' ps' o2 = Some w.
 Proof.
-  assert (S1 := dinto_sim fuel san s t bare ps old1 b). assert (S2 := dinto_sim fuel san s t bare ps old2 b).
+  assert (S1 := dinto_sim fuel rfuel san s t bare ps old1 b). assert (S2 := dinto_sim fuel rfuel san s t bare ps old2 b).
   split.
-  - destruct (dinto fuel san s t bare ps old1 b) as [[[o1 r1]| |]|]; destruct (dinto fuel san s t bare ps old2 b) as [[[o2 r2]| |]|];
+  - destruct (dinto fuel rfuel san s t bare ps old1 b) as [[[o1 r1]| |]|]; destruct (dinto fuel rfuel san s t bare ps old2 b) as [[[o2 r2]| |]|];
       destruct (dec1 fuel san s t bare ps b) as [[[v r]| |]|]; cbn [sim] in S1, S2; try contradiction; try reflexivity.
     destruct S1 as [-> _]. destruct S2 as [-> _]. reflexivity.
   - intros o1 o2 r1 r2 E1 E2. rewrite E1 in S1. rewrite E2 in S2.
